@@ -120,7 +120,12 @@ def call_summarize(tracks, res, margin):
                 order.append(ops.pop(h % k))
                 h //= k
             e["cfg"] += " order=" + ",".join(o.__name__ for o in order)
-            r = summarize(coll, ["tag"] + ["v"] * 6, [co_count] + order, resolution=res, margin=margin, verbose=False)
+            if (len(flat) + int(sum(8 * y for (_x, y, _v) in flat))) % 2:
+                # the list of (feature, operator) requests names 'v' again AFTER another feature
+                e["cfg"] += " requests=v,tag,v.."
+                r = summarize(coll, ["v", "tag"] + ["v"] * 5, [order[0], co_count] + order[1:], resolution=res, margin=margin, verbose=False)
+            else:
+                r = summarize(coll, ["tag"] + ["v"] * 6, [co_count] + order, resolution=res, margin=margin, verbose=False)
         e["g"] = geom(r, sc)
         nd = r.getNoDataValue()
         cells = []
